@@ -26,6 +26,7 @@ ASSUMPTIONS = ['central values to 1e-4 sigma (LM) / 5e-3 sigma (other minimisers
                'the estimated correlation matrix of correlated fits is taken from pe.covariance (decided by C06)',
                'a non-default minimiser that raises "did not converge" is skipped and counted; never for LM']
 EXHAUSTIVE = True
+REPEAT = 2      # every case is evaluated twice in the same process: the second verdict must equal the first (call-history oracle)
 CHUNK = 1
 
 
